@@ -166,11 +166,11 @@ reg(Prop(
         Job("deque", "c15::c15_step_vec8", timeout=1800, mem_gb=8, bounds="Vec<u8>, backing length <= 8"),
         Job("deque", "c15::c15_step_small_inline", timeout=1200, mem_gb=6, covers=C15_COVERS_INLINE,
             bounds="SmallVec<[u8;2]> starting inline (length <= 2)"),
-        Job("deque", "c15::c15_step_small3", timeout=2400, mem_gb=10, bounds="SmallVec<[u8;2]> spilled, backing length <= 3"),
-        Job("deque", "c15::c15_step_small", timeout=2400, mem_gb=10, bounds="SmallVec<[u8;2]> spilled, backing length <= 4"),
+        # c15_step_small3 / c15_step_small (spilled SmallVec, backing length <= 3 / <= 4) exist in kani/deque but did not
+        # finish within 2400 s each: they are not part of either tier
     ],
     bounds_quick="one inductive step (any of 9 operations, symbolic arguments incl. advance(usize::MAX)) from every valid representation with backing length <= 6 (Vec<u8>) / <= 2 inline (SmallVec<[u8;2]>); element type u8",
-    bounds_thorough="as quick plus Vec<u8> backing length <= 8 and spilled SmallVec<[u8;2]> backing length <= 4",
+    bounds_thorough="as quick plus Vec<u8> backing length <= 8 (a SmallVec that starts spilled did not finish within 40 minutes and is not claimed; the inline harness covers the inline->heap spill on push)",
     outside=["element types other than u8", "backing lengths above the bound (the step is inductive, so any history whose backing length stays within the bound is covered)",
              "the half-space bound is observed through the crate's own check_rep debug assertion (backing length is not observable through the API)"],
 ))
